@@ -15,18 +15,25 @@ from vf.checks.re_common import hx, RE_MAX_RANGE
 
 THM = ["YaraModel.Thm.C03"]
 MANIFEST = dict(
-    technique="Lean 4 specification of the regexp AST (set of end positions, cross-checked against a relational formulation) + theorems on the counted-repeat emit table and the "
-              "bytecode VM + spec-level correspondence against the real compiler/scanner (strings and the `matches` operator) + AST tie through the re_ast callback + "
-              "translation validation of the emitted bytecode (real code run by the C VM and by the Lean VM model)",
-    text="proof (partial): Thm/C03.lean proves for ALL buffers and ALL expressions that the specification is self-consistent (ends_iff_Matches, every node kind incl. star/plus "
-         "closures), that the counted-repeat code shape of re.c (prolog / repeat(min,max) / split / epilog table) denotes exactly `e{n,m}` for all n <= m (range_table), and "
-         "soundness of the VM model on emitted code for the fragment stated there. NOT proved: VM completeness with epsilon-loops (split-id argument), atom extraction, "
-         "Aho-Corasick. The gap is covered by sampling: generated regexes x buffers (< 1024 bytes) through the real engine vs. the compiled Lean spec, both directions of the "
-         "iff, the parser AST tie and the real bytecode through the Lean VM.  Zero-length matches are a listed known finding (C03-empty-match).",
+    technique="Lean 4: specification of the regexp AST (sets of end positions, cross-checked against a relational formulation), theorems on the counted-repeat emit table, "
+              "atom decomposition and the bytecode VM + spec-level correspondence against the real compiler/scanner (regex strings and the `matches` operator) + AST tie through "
+              "the re_ast callback + translation validation (real bytecode run by the C VM and by the Lean VM model; Lean model of _yr_re_emit compared byte for byte)",
+    text="proof (partial): Thm/C03.lean proves, for ALL expressions (every RE_NODE_* kind), flags (wide, nocase, dot-all) and buffers: the specification is self-consistent "
+         "(ends_iff_Matches, incl. the closures of * + {n,m}) and the driver's evaluator computes it (driver_evaluates_spec); the prolog/repeat/split/epilog code shape of "
+         "counted repeats denotes exactly e{n,m} for all n <= m (range_table, range_concat); forward-from-the-atom + exhaustive-backward-from-the-atom equals a whole match "
+         "with atoms inside groups, alternation branches and + bodies (decompose); everything the VM model reports (callback lengths, *matches, also in the scan mode of "
+         "`matches`) comes from a reachable fiber at RE_OPCODE_MATCH (vm_reports_reachable, any bytecode). NOT proved: reachable-at-MATCH implies a match for * + {n,m} (counter "
+         "stack invariant; proved for the loop-free fragment in Thm/C02), VM completeness with epsilon-loops, atom extraction, Aho-Corasick. That gap is covered by SAMPLING on "
+         "every run: generated regexes (<= 12 nodes, all-greedy / all-lazy, anchors, word boundaries, classes, /i /s, nocase ascii wide fullword, atoms forced into groups, "
+         "branches and repeats) x buffers (< 1024 bytes) through the real engine vs. the compiled Lean specification (complete match lists, `matches` verdicts through literal "
+         "and external operands), the parser AST tie (incl. class bitmaps and greedy flags), the real bytecode through the C VM and the Lean VM model, the whole-expression code "
+         "run exhaustively vs. the specification, and the Lean emit model vs. the bytes yr_re_ast_emit_code writes.",
     design_ref="DESIGN.md §4 D6/D7, §5 C03",
-    note=core.TB + "The regex printer and the oracle comparator in vf/checks/re_common.py are trusted (the printer is inside the AST tie). Spec decisions: which admissible "
-                   "length is reported (greedy / lazy / first candidate) is not constrained beyond membership; with `fullword` an offset must be reported when every admissible "
-                   "length is delimited and must not when none is; ascii+wide strings may report a length of either encoding.")
+    note=core.TB + "The regex printer and the oracle comparator (vf/checks/re_common.py) are trusted (the printer is inside the AST tie). Spec decisions: which admissible "
+                   "length is reported is not constrained beyond membership; with `fullword` an offset must be reported when every admissible length is delimited and must not when "
+                   "none is; ascii+wide strings may report a length of either encoding. Seven listed findings (known_findings.json: empty matches, wide+fullword without atom, "
+                   "nullable counted repeats, `matches` at the end of the operand, dead fiber after a zero-width instruction (abort), zero-width loop (hang), lazy dot chains) are "
+                   "excused only for their signature; a model/code tie broken without a property-level failing input is reported as `no-failing-input-found`.")
 
 LETTERS = [0x61, 0x62, 0x63]
 ALPHA = [0x61, 0x62, 0x63, 0x41, 0x42, 0x31, 0x5F, 0x20, 0x2D, 0x0A, 0x00, 0xE9, 0x7A, 0x39]
@@ -478,7 +485,7 @@ def run(tier, replay=None):
     core.proof_coverage(chk, lres, THM)
     b = core.build("asan", harness=["h_scan", "h_re"])
     r = core.rng("C03")
-    ns, nm = (900, 300) if tier == "quick" else (30000, 10000)
+    ns, nm = (1800, 500) if tier == "quick" else (30000, 10000)
     cases, metas = [], {}
     for i, ent in enumerate(CORPUS):
         rx, mods, fl, buf = ent[:4]
